@@ -23,6 +23,7 @@ class Worker:
         env["CONDREWARDS_VERIF"] = "1"
         env["PYTHONDONTWRITEBYTECODE"] = "1"
         env["PYTHONHASHSEED"] = "0"
+        env["PYTHONUTF8"] = "1"         # text files are UTF-8 whatever the sandbox locale says
         self.proc = subprocess.Popen(
             [PY, os.path.join(HERE, "worker.py"), self.repo],
             stdin=subprocess.PIPE, stdout=subprocess.PIPE, stderr=subprocess.DEVNULL,
